@@ -15,8 +15,8 @@ import (
 var (
 	CTDirs       = []string{"g2m", "m2g"} // goroutine writes & main sinks / main writes & goroutine sinks
 	CTTransports = []string{"field", "map", "slice", "chan", "global", "captured", "box", "nested", "copy", "append", "selectsend"}
-	CTShares     = []string{"goarg", "closure", "global", "chanptr", "holder"}
-	CTVias       = []string{"direct", "callee", "method", "deferred", "inline", "srchelper"}
+	CTShares     = []string{"goarg", "closure", "global", "chanptr", "holder", "spawn", "spawniface"}
+	CTVias       = []string{"direct", "callee", "method", "deferred", "inline", "srchelper", "ifacecall"}
 )
 
 // TScenario is one generated case.
@@ -49,6 +49,8 @@ type C struct {
 }
 
 type Holder struct{ c *C }
+
+type CRunner interface{ Run() }
 
 var spinSink int
 `
@@ -141,7 +143,16 @@ func RenderConcTaint(scs []*TScenario) string {
 			sc.SrcLine = line - 1
 			w("}\n")
 		}
+		if sc.Via == "ifacecall" {
+			w("type WI%d interface{ Store(c *C, v string) }\ntype wi%d struct{}\nfunc (x *wi%d) Store(c *C, v string) {\n\t%s\n}\n", n, n, n, ctPut(sc.Transport, "c", "v", n))
+		}
 		putStmt := func(indent string) {
+			if sc.Via == "ifacecall" {
+				w("%sv := source_%d()\n", indent, n)
+				sc.SrcLine = line - 1
+				w("%svar wv WI%d = &wi%d{}\n%swv.Store(c, v)\n", indent, n, n, indent)
+				return
+			}
 			if sc.Via == "srchelper" {
 				w("%sv := getsrc_%d()\n", indent, n)
 			} else {
@@ -151,7 +162,7 @@ func RenderConcTaint(scs []*TScenario) string {
 			w("%s%s\n", indent, ctPut(sc.Transport, "c", "v", n))
 		}
 		switch sc.Via {
-		case "inline", "srchelper":
+		case "inline", "srchelper", "ifacecall":
 			// the creating goroutine's side is written directly into the scenario function (below)
 			if sc.Dir == "g2m" {
 				w("func put%d(c *C) {\n", n)
@@ -178,7 +189,7 @@ func RenderConcTaint(scs []*TScenario) string {
 			w("\tdefer func() {\n\t\t%s\n\t}()\n}\n", ctPut(sc.Transport, "c", "v", n))
 		}
 		// reading side
-		inl := sc.Via == "inline" || sc.Via == "srchelper"
+		inl := sc.Via == "inline" || sc.Via == "srchelper" || sc.Via == "ifacecall"
 		if !(inl && sc.Dir == "g2m") {
 			w("func get%d(c *C) {\n\t%s\n\tsink_%d(x)\n", n, ctGet(sc.Transport, "c", n), n)
 			sc.SinkLine = line - 1
@@ -208,7 +219,17 @@ func RenderConcTaint(scs []*TScenario) string {
 			params = strings.Replace(params, "done chan bool", "ready, done chan bool", 1)
 			wait = "<-ready"
 		}
-		if sc.Share != "closure" {
+		if sc.Share == "spawn" {
+			w("func spawn%d(f func()) {\n\tgo f()\n}\n", n)
+		}
+		if sc.Share == "spawniface" {
+			w("type RN%d struct {\n\tc     *C\n\tready chan bool\n\tdone  chan bool\n}\nfunc (r *RN%d) Run() {\n", n, n)
+			if wait != "" {
+				w("\t<-r.ready\n")
+			}
+			w("\t%s%d(r.c)\n\tr.done <- true\n}\nfunc start%d(r CRunner) {\n\tgo r.Run()\n}\n", other, n, n)
+		}
+		if sc.Share != "closure" && sc.Share != "spawn" && sc.Share != "spawniface" {
 			w("func other%d(%s) {\n", n, params)
 			if obtain != "" {
 				w("\t%s\n", obtain)
@@ -236,6 +257,18 @@ func RenderConcTaint(scs []*TScenario) string {
 				w("\t\t<-ready\n")
 			}
 			w("\t\t%s%d(c)\n\t\tdone <- true\n\t}()\n", other, n)
+		case "spawn":
+			w("\tspawn%d(func() {\n", n)
+			if wait != "" {
+				w("\t\t<-ready\n")
+			}
+			w("\t\t%s%d(c)\n\t\tdone <- true\n\t})\n", other, n)
+		case "spawniface":
+			if wait != "" {
+				w("\tstart%d(&RN%d{c, ready, done})\n", n, n)
+			} else {
+				w("\tstart%d(&RN%d{c, nil, done})\n", n, n)
+			}
 		case "global":
 			w("\tgc%d = c\n\tgo other%d(%sdone)\n", n, n, readyArg)
 		case "chanptr":
